@@ -743,10 +743,19 @@ package fzf
 //@ property C09
 //@ ensures fresh(result) && len(result) == len(slice) && forall(k, 0, len(slice), result[k] == slice[k])
 
-// findLastMatch: number of characters before the last match of the pattern in str, or -1.  The patterns
-// fzf passes match at least one character, so a match starts before the end of the string (assumed).
-//@ func findLastMatch trusted
-//@ ensures -1 <= result && result < nrunes(str)
+// findFirstMatch / findLastMatch: -1, or the number of *characters* (not bytes) before the first / last match
+// of the pattern in str - the query is edited as runes, so a byte offset would move the cursor too far on
+// non-ASCII text.
+//@ func findFirstMatch
+//@ property C09
+//@ ensures -1 <= result
+//@ ensures result == -1 || exists(k, 0, len(str) + 1, result == nrunes(str[0:k]))
+//@ func findLastMatch
+//@ property C09
+//@ ensures -1 <= result
+//@ ensures result == -1 || exists(k, 0, len(str) + 1, result == nrunes(str[0:k]))
+// (assumed: the patterns fzf passes match at least one character, so the last match starts before the end)
+//@ ensures[trusted] result < nrunes(str)
 
 // rubout (unix-word-rubout, backward-kill-word): the text between the last word boundary and the cursor
 // moves to the kill buffer - a copy, not a view of the query - and is cut out of the query.
